@@ -20,6 +20,7 @@ from cryptoparser.common.base import (
     VectorParamParsable,
     VectorParsable,
 )
+from cryptoparser.common.exception import InvalidDataLength, InvalidType
 from cryptoparser.common.parse import ComposerBinary, ParsableBase, ParserBinary
 
 from cryptoparser.tls.algorithm import TlsSignatureAndHashAlgorithm, TlsSignatureAndHashAlgorithmFactory
@@ -114,7 +115,12 @@ class PublicKeyX509(PublicKeyX509Base):
         try:
             # ensure recursive parsing
             public_key._certificate.native  # pylint: disable=protected-access,pointless-statement
-        except (ValueError, LookupError, TypeError, AttributeError, ArithmeticError) as e:
+            # ensure that the values of a report (key size, signature algorithm, timestamps) can be computed
+            public_key._asdict()  # pylint: disable=protected-access
+        except (
+            InvalidValue, InvalidType, InvalidDataLength,
+            ValueError, LookupError, TypeError, AttributeError, ArithmeticError
+        ) as e:
             six.raise_from(InvalidValue(bytes(der), cls, 'certificate'), e)
 
         return public_key
